@@ -34,6 +34,25 @@ class LoopCtx(object):
     def ghost0(self, name):
         return self.ex.env.trusted.ghost(self.entry, name)
 
+    def now(self):
+        """a view of the current state with the Ctx reading interface (old == new == the current heap and ghosts), so
+        that object invariants written for pre/postconditions can be restated in loop invariants"""
+        L = self
+
+        class _Now(object):
+            def old(self, obj, name):
+                return L.field(obj, name)
+            new = old
+
+            def gold(self, name):
+                return L.ghost(name)
+            gnew = gold
+
+            def old_arr(self, name):
+                return L.st.field_arr(name)
+            new_arr = old_arr
+        return _Now()
+
 
 def assigned_names(stmts):
     names = set()
@@ -77,6 +96,8 @@ def havoc(ex, entry, modL, modH, modG, tag, mutates=()):
             for objfn in objmut.get(f, []):
                 # the loop may write this field of this one pre-existing object
                 keep = z3.And(keep, r != Val.ref(objfn(LoopCtx(ex, entry, entry, None, None, None))))
+            for ref_ in getattr(ex, "frame_refs", lambda f_: [])(f):
+                keep = z3.And(keep, r != ref_)
             st.heap[f] = z3.Lambda([r], z3.If(keep, z3.Select(base, r), z3.Select(hav, r)))
     for g in modG:
         st.ghost[g] = V.fresh("GL_" + g, ex.env.trusted.ghost_sort(g))
@@ -127,6 +148,8 @@ def loop_frame(ex, s, entry, head, modH, mutates, ordinal):
         pre = [r < entry.aptr, r >= 0]
         for objfn in objmut.get(f, []):
             pre.append(r != Val.ref(objfn(LoopCtx(ex, entry, entry, None, None, None))))
+        for ref_ in getattr(ex, "frame_refs", lambda f_: [])(f):
+            pre.append(r != ref_)
         goal = z3.Implies(z3.And(*pre), z3.Select(s.field_arr(f), r) == z3.Select(head.field_arr(f), r))
         oblige(ex, s, "inv-frame", "%s#%d" % (f, ordinal), goal)
 
